@@ -186,12 +186,20 @@ def bin_jobs(rng, tier, mode, tb):
                 # all 65536 pairs, built inside the engine
                 j = Job("exh-%s-%s" % (fn, t), fn, "int", [("a", t), ("b", t)], expr, None,
                         ["all8 %s %s %s %s" % (fn, style(tb, {"gcd": "gcd_native", "lcm": "lcm_native"}.get(fn, "")), mode, sg)])
-                if fn == "gcd":
+                import math
+                old_variant = style(tb, fn + "_native") == "n" if fn in ("gcd", "lcm") else False
+                if fn == "gcd" and old_variant:
                     pred_sql, pred_py = "a <> -128 and b <> -128", (lambda a, b: a != -128 and b != -128)
-                elif fn == "lcm":
-                    import math
+                elif fn == "gcd":
+                    # the gcd is 128 exactly for (MIN, MIN), (MIN, 0), (0, MIN)
+                    pred_sql = "not ((a = -128 and (b = -128 or b = 0)) or (a = 0 and b = -128))"
+                    pred_py = lambda a, b: not ((a == -128 and b in (-128, 0)) or (a == 0 and b == -128))
+                elif fn == "lcm" and old_variant:
                     pred_sql = "a <> -128 and b <> -128 and lcm(cast(a as int), cast(b as int)) <= 127"
                     pred_py = lambda a, b: a != -128 and b != -128 and (a == 0 or b == 0 or abs(a * b) // math.gcd(a, b) <= 127)
+                elif fn == "lcm":
+                    pred_sql = "lcm(cast(a as int), cast(b as int)) <= 127"
+                    pred_py = lambda a, b: a == 0 or b == 0 or abs(a * b) // math.gcd(a, b) <= 127
                 else:
                     pred_sql, pred_py = None, (lambda a, b: True)
                 j.exh = {"lo": lo, "hi": hi, "pred_sql": pred_sql, "pred_py": pred_py,
@@ -325,35 +333,18 @@ def float_jobs(rng, tier):
 
 # ---------------------------------------------------------------- known classes (findings/C05num.json)
 def classify(job, tup, impl, spec):
-    """impl (== engine) differs from spec: the class of findings/C05num.json it falls in, or None"""
+    """impl (== engine) differs from spec: the class of findings/C05num.json it falls in, or None.
+    gcd, lcm, factorial, shr and the panic of round have no class any more (fixed: 9b10c8448, e09e186b9, eb21ac26a,
+    36f5e65a8): any difference from the definition there is a violation."""
     fn = job.fn
-    if fn in ("gcd", "lcm"):
-        bits = INT_TYPES[job.cols[0][1]][0]
-        a, b = int(tup[0][1:]), int(tup[1][1:])
-        mn = -(1 << (bits - 1))
-        if fn == "gcd":
-            return "gcd-type-minimum" if (a == mn or b == mn) else None
-        if a == mn or b == mn or spec == "err":
-            return "lcm-unrepresentable"
-        return None
-    if fn == "factorial":
-        n = int(tup[0][1:])
-        return "factorial-null-instead-of-error" if (impl == "ok:null" and spec == "err" and (n < 0 or n >= 34)) else None
-    if fn == "shr":
-        bits, sg = INT_TYPES[job.cols[0][1]]
-        a, b = int(tup[0][1:]), int(tup[1][1:])
-        return "shr-negative-overshift" if (sg == "s" and a < 0 and b >= bits and impl == "ok:0" and spec == "ok:-1") else None
     if fn == "round" and job.kind == "round":
         p, s, n = job.info["p"], job.info["s"], job.info["n"] or 0
         maxp = 18 if p <= 18 else 38
-        if not (-128 <= n <= 127):
+        if n > 127:
             return "round-digits-outside-i8" if impl == "err" else None
-        diff = s - min(n, s)
-        if diff > 127 and job.info.get("native_sub", True):
-            return "round-scale-difference-overflows-i8" if impl in ("panic", "err") else None
-        if diff > maxp:
-            return "round-rescale-factor-unrepresentable" if impl == "err" else None
-        return None
+        if n < -128:
+            return None
+        return "round-rescale-factor-unrepresentable" if (s - min(n, s) > maxp and impl == "err") else None
     if job.kind == "float":
         v = int(tup[0][1:].split("/")[0])
         # beyond 2^53 the cast to Float64 rounds the argument; abs of a decimal of scale > 22 divides by a power
@@ -607,86 +598,165 @@ def run_jobs(jobs, profile, gbin, gmodel, rng, tier, stats):
     return viol, known
 
 # ---------------------------------------------------------------- comparisons across integer types
-def cmp_class(ta, tb, a, b, got):
-    """findings/C05num.json compare-u64-signed-via-float64: UInt64 against a signed integer type is compared after casting
-    both sides to Float64; recognised when both magnitudes reach 2^53 and the engine's answers are those of the rounded floats"""
-    if "u64" not in (ta, tb) or INT_TYPES[ta if tb == "u64" else tb][1] != "s" or ta == tb:
-        return None
-    if abs(a) < (1 << 53) or abs(b) < (1 << 53):
-        return None
-    fa, fb = float(a), float(b)
-    want = "".join("1" if x else "0" for x in (fa < fb, fa <= fb, fa == fb, fa != fb, fa >= fb, fa > fb))
-    return "compare-u64-signed-via-float64" if got == want else None
+CMP_OPS = ["<", "<=", "=", "<>", ">=", ">"]
+CMP_BOUNDARY = [-(1 << 63), -(1 << 63) + 1, -(1 << 53) - 1, -(1 << 53), -(1 << 31), -32768, -129, -128, -127, -2, -1, 0, 1, 2, 127, 128, 255, 256,
+                32767, 32768, 65535, 65536, (1 << 31) - 1, 1 << 31, (1 << 32) - 1, 1 << 32, (1 << 53) - 1, 1 << 53, (1 << 53) + 1, (1 << 53) + 2,
+                (1 << 63) - 2, (1 << 63) - 1, 1 << 63, (1 << 63) + 1, (1 << 64) - 2, (1 << 64) - 1]
 
 
-def stage_cmp(rng, tier, gbin, gmodel, stats, known):
-    """a < b ... a > b for operands of two (different) integer types against the comparison of the integers"""
+def cmp_bits(a, b):
+    return "".join("1" if x else "0" for x in (a < b, a <= b, a == b, a != b, a >= b, a > b))
+
+
+def stage_cmp(rng, tier, gbin, gmodel, stats):
+    """the six comparisons between operands of any two of the eight integer types against the comparison of the integers
+    (extracted spec_cmp): projected over columns, as WHERE predicate, inside CASE, constant-folded, as the key of an
+    equi-join (hash join), and -- per type -- ORDER BY / GROUP BY / min / max"""
     names = list(INT_TYPES)
-    combos = [(x, y) for x in names for y in names if x != y]
-    must = [("i8", "u8"), ("u8", "i8"), ("i64", "u64"), ("u64", "i64"), ("i32", "u32"), ("i8", "i16"), ("u64", "i8"), ("i16", "u64")]
-    chosen = must + [c for c in rng.shuffle(combos) if c not in must][: (6 if tier == "quick" else len(combos))]
-    ops = ["<", "<=", "=", "<>", ">=", ">"]
+    combos = [(x, y) for x in names for y in names]
+    if tier == "quick":
+        must = [("i64", "u64"), ("u64", "i64"), ("i32", "u64"), ("u64", "i8"), ("i8", "u8"), ("u32", "i32"), ("i64", "i64"), ("u64", "u64"),
+                ("i16", "u64"), ("u16", "i64")]
+        combos = must + [c for c in rng.shuffle(combos) if c not in must][:8]
+    pools = {}
+    for t in names:
+        lo, hi = lo_hi(t)
+        vs = sorted(set([v for v in CMP_BOUNDARY if lo <= v <= hi] + [lo, hi] + [rng_int(rng, t) for _ in range(3)]))
+        pools[t] = vs
     cases, meta, lines = [], [], []
-    for (ta, tb) in chosen:
-        va = sorted(set(gen.int_pool(INT_TYPES[ta][0] // 8, INT_TYPES[ta][1] == "s") + [rng_int(rng, ta) for _ in range(4)]))
-        vb = sorted(set(gen.int_pool(INT_TYPES[tb][0] // 8, INT_TYPES[tb][1] == "s") + [rng_int(rng, tb) for _ in range(4)]))
-        if tier == "quick":
-            va, vb = va[:3] + rng.shuffle(va[3:])[:9], vb[:3] + rng.shuffle(vb[3:])[:9]
-        for t_, vs in ((ta, va), (tb, vb)):
-            if INT_TYPES[t_][0] == 64:      # neighbours beyond 2^53: equal as Float64, different as integers
-                vs += [v for v in ((1 << 53) + 1, (1 << 53), (1 << 63) - 1, (1 << 63) - 2) if v not in vs]
-        stmts = [gen.create_table("x", [("a", ta)]), gen.create_table("y", [("b", tb)])] + \
-            insert_rows("x", [("a", ta)], [["I%d" % v] for v in va]) + insert_rows("y", [("b", tb)], [["I%d" % v] for v in vb]) + \
-            ["select a, b, %s from x, y" % ", ".join("a %s b" % o for o in ops)]
-        lit = [(rng.choice(va), rng.choice(vb)) for _ in range(12)]
-        stmts.append("select " + ", ".join("%s %s %s" % (gen.sql_lit(ta, "I%d" % a), o, gen.sql_lit(tb, "I%d" % b)) for a, b in lit for o in ops))
-        cases.append({"id": "cmp-%s-%s" % (ta, tb), "mode": "det", "partitions": 1, "stmts": stmts, "timeout_s": 60})
-        meta.append((ta, tb, va, vb, lit, stmts))
+    for (ta, tb) in combos:
+        va, vb = pools[ta], pools[tb]
+        if tier == "quick" and len(va) * len(vb) > 500:
+            keep = lambda vs: sorted(set(vs[:2] + vs[-4:] + [v for v in vs if abs(v) in ((1 << 53), (1 << 53) + 1, (1 << 63) - 1, 0, 1)] + rng.shuffle(vs)[:6]))
+            va, vb = keep(va), keep(vb)
+        setup = [gen.create_table("x", [("a", ta)]), gen.create_table("y", [("b", tb)])] + \
+            insert_rows("x", [("a", ta)], [["I%d" % v] for v in va]) + insert_rows("y", [("b", tb)], [["I%d" % v] for v in vb])
+        stmts = list(setup)
+        idx = {}
+        stmts.append("select a, b, %s from x, y" % ", ".join("a %s b" % o for o in CMP_OPS)); idx["column"] = len(stmts) - 1
+        stmts.append("select a, b, %s from x, y" % ", ".join("case when a %s b then 1 else 0 end" % o for o in CMP_OPS)); idx["case"] = len(stmts) - 1
+        for k, o in enumerate(CMP_OPS):
+            stmts.append("select a, b from x, y where a %s b" % o); idx["where%d" % k] = len(stmts) - 1
+        stmts.append("select a, b from x join y on a = b"); idx["join"] = len(stmts) - 1
+        stmts.append("select a, b from x left join y on a = b"); idx["leftjoin"] = len(stmts) - 1
+        lit = [(rng.choice(va), rng.choice(vb)) for _ in range(10)] + \
+            [(a, b) for a in va for b in vb if a != b and float(a) == float(b)][:6]
+        stmts.append("select " + ", ".join("%s %s %s" % (gen.sql_lit(ta, "I%d" % a), o, gen.sql_lit(tb, "I%d" % b)) for a, b in lit for o in CMP_OPS))
+        idx["literal"] = len(stmts) - 1
+        cases.append({"id": "cmp-%s-%s" % (ta, tb), "mode": "det", "partitions": 1, "stmts": stmts, "timeout_s": 120})
+        meta.append((ta, tb, va, vb, lit, stmts, idx))
         lines += ["cmp %d %d" % (a, b) for a in va for b in vb] + ["cmp %d %d" % (a, b) for a, b in lit]
+    # per type: ORDER BY, GROUP BY, min, max over a column holding the pool twice
+    ocases = []
+    for t in names:
+        vs = pools[t]
+        rows = [["I%d" % v] for v in rng.shuffle(vs + vs)]
+        stmts = [gen.create_table("x", [("a", t)])] + insert_rows("x", [("a", t)], rows) + \
+            ["select a from x order by a", "select a, count(*) from x group by a", "select min(a), max(a) from x",
+             "select a from x order by a desc limit 3"]
+        ocases.append({"id": "ord-%s" % t, "mode": "det", "partitions": 1, "stmts": stmts, "timeout_s": 60})
     mout = common.run_model(gmodel, "numfn", lines)
-    real = common.run_harness(gbin, "sql", cases, timeout=600)
+    real = common.run_harness(gbin, "sql", cases + ocases, timeout=1200)
     viol, pos = [], 0
-    for (ta, tb, va, vb, lit, stmts), r in zip(meta, real):
+
+    def bad(kind, ta, tb, a, b, op, eng, want, ctx, sql):
+        viol.append({"kind": "comparison", "what": kind, "types": [ta, tb], "args": [a, b], "operator": op, "context": ctx, "engine": eng,
+                     "definition": want, "stmts": sql})
+
+    def one(ta, tb, a, b, tmpl):
+        return [gen.create_table("x", [("a", ta)]), gen.create_table("y", [("b", tb)])] + insert_rows("x", [("a", ta)], [["I%d" % a]]) + \
+            insert_rows("y", [("b", tb)], [["I%d" % b]]) + [tmpl]
+
+    for (ta, tb, va, vb, lit, stmts, idx), r in zip(meta, real[:len(cases)]):
         want = {}
         for a in va:
             for b in vb:
                 want[(a, b)] = mout[pos]; pos += 1
+                if want[(a, b)] != cmp_bits(a, b):
+                    viol.append({"kind": "model-driver", "what": "extracted spec_cmp disagrees with the integer comparison", "args": [a, b]})
         wlit = mout[pos:pos + len(lit)]; pos += len(lit)
-        o = case_stmt(r, -2, len(stmts))
-        o2 = case_stmt(r, -1, len(stmts))
-        if o[0] != "ok" or o2[0] != "ok":
-            viol.append({"kind": "comparison-statement-failed", "types": [ta, tb], "outcome": [list(o)[:2], list(o2)[:2]], "stmts": stmts[:2] + ["..."] + stmts[-2:]})
+        outs = {k: case_stmt(r, v, len(stmts)) for k, v in idx.items()}
+        failed = [k for k, o in outs.items() if o[0] != "ok"]
+        if failed:
+            k = failed[0]
+            viol.append({"kind": "comparison-statement-failed", "types": [ta, tb], "context": k, "outcome": list(outs[k])[:2],
+                         "stmts": stmts[:2] + ["..."] + [stmts[idx[k]]]})
             continue
-        for row in o[1]:
-            a, b = int(row[0][1:]), int(row[1][1:])
-            got = "".join("1" if c == "B1" else "0" if c == "B0" else "?" for c in row[2:])
-            stats["evaluations"] += 6
-            stats["distinct"].add(("cmp", ta, tb, want.get((a, b))))
-            if got != want.get((a, b)):
-                k = [i for i in range(6) if got[i] != (want.get((a, b)) or "??????")[i]][0]
-                info = {"kind": "comparison", "types": [ta, tb], "args": [a, b], "operator": ops[k], "engine": got, "definition": want.get((a, b)),
-                        "stmts": ["select %s %s %s" % (gen.sql_lit(ta, "I%d" % a), ops[k], gen.sql_lit(tb, "I%d" % b))]}
-                cls = cmp_class(ta, tb, a, b, got)
-                if cls:
-                    kk = known.setdefault(cls, {"count": 0, "example": info})
-                    kk["count"] += 1
-                else:
-                    viol.append(info)
-        cells = o2[1][0]
+        stats["distinct"].add(("cmp", ta, tb))
+        for ctx in ("column", "case"):
+            seen = set()
+            for row in outs[ctx][1]:
+                a, b = int(row[0][1:]), int(row[1][1:])
+                seen.add((a, b))
+                got = "".join("1" if c in ("B1", "I1") else "0" if c in ("B0", "I0") else "?" for c in row[2:])
+                stats["evaluations"] += 6
+                w = want.get((a, b))
+                if got != w:
+                    k = [i for i in range(6) if got[i] != (w or "??????")[i]][0]
+                    tm = "select a %s b from x, y" % CMP_OPS[k] if ctx == "column" else "select case when a %s b then 1 else 0 end from x, y" % CMP_OPS[k]
+                    bad("value", ta, tb, a, b, CMP_OPS[k], got, w, ctx, one(ta, tb, a, b, tm))
+            if seen != set(want):
+                viol.append({"kind": "comparison", "what": "cross join lost or invented rows", "types": [ta, tb], "context": ctx})
+        for k, o in enumerate(CMP_OPS):
+            got = set((int(row[0][1:]), int(row[1][1:])) for row in outs["where%d" % k][1])
+            exp = set(p_ for p_, w in want.items() if w[k] == "1")
+            stats["evaluations"] += len(want)
+            for (a, b) in sorted(got ^ exp)[:2]:
+                bad("WHERE keeps exactly the pairs for which the comparison holds", ta, tb, a, b, o, (a, b) in got, (a, b) in exp, "where",
+                    one(ta, tb, a, b, "select a, b from x, y where a %s b" % o))
+        exp = sorted(p_ for p_, w in want.items() if w[2] == "1")
+        got = sorted((int(row[0][1:]), int(row[1][1:])) for row in outs["join"][1])
+        stats["evaluations"] += len(want)
+        if got != exp:
+            d = sorted(set(got) ^ set(exp))[:1] or [exp[0] if exp else (0, 0)]
+            bad("equi-join on keys of two integer types pairs exactly the equal integers", ta, tb, d[0][0], d[0][1], "=", got[:6], exp[:6], "join",
+                one(ta, tb, d[0][0], d[0][1], "select a, b from x join y on a = b"))
+        gotl = sorted(((int(row[0][1:]), None if row[1] == "N" else int(row[1][1:])) for row in outs["leftjoin"][1]), key=lambda t_: (t_[0], t_[1] is None, t_[1] or 0))
+        expl = sorted(([(a, b) for (a, b) in exp] + [(a, None) for a in va if a not in set(vb)]), key=lambda t_: (t_[0], t_[1] is None, t_[1] or 0))
+        stats["evaluations"] += len(va)
+        if gotl != expl:
+            d = [x for x in gotl if x not in expl][:1] or [x for x in expl if x not in gotl][:1]
+            bad("left equi-join keeps every left row once per equal right key", ta, tb, d[0][0], d[0][1], "=", gotl[:6], expl[:6], "left join",
+                stmts[:2] + ["..."] + [stmts[idx["leftjoin"]]])
+        cells = outs["literal"][1][0]
         for i, ((a, b), w) in enumerate(zip(lit, wlit)):
             got = "".join("1" if c == "B1" else "0" if c == "B0" else "?" for c in cells[6 * i:6 * i + 6])
             stats["evaluations"] += 6
             if got != w:
                 k = [x for x in range(6) if got[x] != w[x]][0]
-                info = {"kind": "comparison", "context": "literal", "types": [ta, tb], "args": [a, b], "operator": ops[k], "engine": got, "definition": w,
-                        "stmts": ["select %s %s %s" % (gen.sql_lit(ta, "I%d" % a), ops[k], gen.sql_lit(tb, "I%d" % b))]}
-                cls = cmp_class(ta, tb, a, b, got)
-                if cls:
-                    kk = known.setdefault(cls, {"count": 0, "example": info})
-                    kk["count"] += 1
-                else:
-                    viol.append(info)
+                bad("value", ta, tb, a, b, CMP_OPS[k], got, w, "literal",
+                    ["select %s %s %s" % (gen.sql_lit(ta, "I%d" % a), CMP_OPS[k], gen.sql_lit(tb, "I%d" % b))])
+    for t, c, r in zip(names, ocases, real[len(cases):]):
+        vs = pools[t]
+        n = len(c["stmts"])
+        o_ord, o_grp, o_mm, o_top = [case_stmt(r, k, n) for k in (-4, -3, -2, -1)]
+        if any(o[0] != "ok" for o in (o_ord, o_grp, o_mm, o_top)):
+            viol.append({"kind": "comparison-statement-failed", "types": [t], "context": "order/group", "stmts": c["stmts"][-4:]})
+            continue
+        stats["evaluations"] += 4
+        got = [int(row[0][1:]) for row in o_ord[1]]
+        if got != sorted(vs + vs):
+            viol.append({"kind": "comparison", "what": "ORDER BY is not the order of the integers", "types": [t], "engine": got[:8], "stmts": c["stmts"][:1] + ["..."] + c["stmts"][-4:-3]})
+        grp = sorted((int(row[0][1:]), int(row[1][1:])) for row in o_grp[1])
+        if grp != [(v, 2) for v in vs]:
+            viol.append({"kind": "comparison", "what": "GROUP BY does not group exactly the equal integers", "types": [t], "engine": grp[:8], "stmts": c["stmts"][-3:-2]})
+        if [o_mm[1][0][0], o_mm[1][0][1]] != ["I%d" % vs[0], "I%d" % vs[-1]]:
+            viol.append({"kind": "comparison", "what": "min / max", "types": [t], "engine": o_mm[1][0], "stmts": c["stmts"][-2:-1]})
+        if [int(row[0][1:]) for row in o_top[1]] != sorted(vs + vs, reverse=True)[:3]:
+            viol.append({"kind": "comparison", "what": "ORDER BY DESC LIMIT", "types": [t], "engine": o_top[1], "stmts": c["stmts"][-1:]})
     return viol
+
+
+def stage_mixed_notes(gbin):
+    """observations, not requirements: how a UNION of a signed and an unsigned 64-bit column is typed, what SUM / AVG over UInt64 return"""
+    probes = {"union_bigint_ubigint": "select v from (select cast(5 as bigint) as v union all select cast(5 as ubigint)) t",
+              "sum_ubigint": "select sum(a), avg(a) from (values (cast('9007199254740993' as ubigint)), (cast(0 as ubigint))) v(a)"}
+    cases = [{"id": k, "mode": "det", "partitions": 1, "stmts": [q], "timeout_s": 30} for k, q in probes.items()]
+    out = {}
+    for c, r in zip(cases, common.run_harness(gbin, "sql", cases, timeout=120)):
+        o = case_stmt(r, 0, 1)
+        out[c["id"]] = {"sql": c["stmts"][0], "outcome": o[0], "detail": (str(o[1])[:120] if o[0] != "ok" else {"rows": o[1], "types": [t_[1] for t_ in o[2]]})}
+    return out
 
 
 def run(ctx):
@@ -722,7 +792,8 @@ def run(ctx):
             e = known.setdefault(fid, {"count": 0, "example": d["example"]})
             e["count"] += d["count"]
         per_profile[profile] = {"jobs": len(jobs), "tuples": sum(len(j.tuples or []) for j in jobs)}
-    viol += stage_cmp(rng, tier, bins["dev"], gmodel, stats, known)
+    viol += stage_cmp(rng, tier, bins["dev"], gmodel, stats)
+    notes = stage_mixed_notes(bins["dev"])
     listed = {e["id"]: e for e in common.known_findings()["known"] if e.get("property") == PID}
     for fid in sorted(known):
         d = known[fid]
@@ -761,12 +832,12 @@ def run(ctx):
                 "findings/C05num.json. gcd lcm & | xor: all 65 536 Int8 pairs (and UInt8 for the bitwise ones) built in the engine; << >> ~: all 256 "
                 "values x boundary counts; 16/32/64-bit and unsigned types: boundary-biased pairs; factorial -3..40 and the Int64 limits; round over a "
                 "(p,s) grid x digit counts incl. negative, >= s, +-128, i64 limits; abs sign ceil floor trunc round over all integer types and a decimal "
-                "grid, results compared by Float64 bit pattern; the six comparisons between operands of two different integer types (boundary pools, column and literal) against the comparison of the integers (definition only, no transcription of the implicit casts). distinct = distinct (function, type, context, model class, definition class, profile).",
+                "grid, results compared by Float64 bit pattern; the six comparisons between operands of any two of the eight integer types over boundary pools (MIN, 2^53+-1, 2^63-1, 2^63, 2^64-1, ...) against the comparison of the integers (extracted spec_cmp; no transcription of the implicit casts): projected, inside CASE, as WHERE predicate, constant-folded, as key of an inner and a left equi-join; per type ORDER BY / GROUP BY / min / max. distinct = distinct (function, type, context, model class, definition class, profile).",
         "samples": [known[k]["example"] for k in sorted(known)][:4],
         "profiles": per_profile, "batch_statements": stats["batch_statements"],
         "known_classes_reproduced": {k: v["count"] for k, v in known.items()},
         "known_classes_not_reproduced": sorted(fid for fid in listed if fid not in known),
-        "source_variants": tb, "exhaustive": False,
+        "source_variants": tb, "mixed_type_observations": notes, "exhaustive": False,
     }
     out["assumptions"] = ["Int128/UInt128 have no SQL spelling: the 128-bit instances of the theorems are proofs only (factorial's Int128 result and Decimal128 exercise i128)",
                           "text -> integer/decimal casts deliver the intended operands (operands are read back as row keys in the exhaustive statements)",
